@@ -187,12 +187,41 @@ fn one_case(input: &str) -> String {
     };
     let (dpath, dthread) = dvm.threads[di % dvm.threads.len()].clone();
     // 1. build the value in the source thread
+    // (a shape with `parent_cell`: the reference is made by the parent of the source thread and the
+    // source thread builds the value around it)
+    let mut parent_handle: Option<Any> = None;
+    let mut builder: Option<FunctionRef<fn(Any) -> Any>> = None;
+    if sh.parent_cell {
+        if spath.len() < 2 {
+            done!("no-parent");
+        }
+        let ppath = spath[..spath.len() - 1].to_vec();
+        let pthread = a.threads.iter().find(|t| t.0 == ppath).unwrap().1.clone();
+        match pthread.run_expr::<Any>("pc", &shapes::parent_cell_program(&mut rng)) {
+            Ok((v, _)) => parent_handle = Some(v),
+            Err(_) => done!("eval-error"),
+        }
+        match sthread.run_expr::<FunctionRef<fn(Any) -> Any>>("bld", &shapes::program(&sh)) {
+            Ok((f, _)) => builder = Some(f),
+            Err(e) => {
+                res.insert("error".into(), json!(format!("{}", e).chars().take(200).collect::<String>()));
+                done!("eval-error");
+            }
+        }
+    }
     let s0 = snapshot(&a.root);
-    let hv: Any = match sthread.run_expr::<Any>("v", &shapes::program(&sh)) {
-        Ok((v, _)) => v,
-        Err(e) => {
-            res.insert("error".into(), json!(format!("{}", e).chars().take(200).collect::<String>()));
-            done!("eval-error");
+    let hv: Any = if let (Some(ph), Some(f)) = (&parent_handle, builder.as_mut()) {
+        match f.call(ph.clone()) {
+            Ok(v) => v,
+            Err(_) => done!("eval-error"),
+        }
+    } else {
+        match sthread.run_expr::<Any>("v", &shapes::program(&sh)) {
+            Ok((v, _)) => v,
+            Err(e) => {
+                res.insert("error".into(), json!(format!("{}", e).chars().take(200).collect::<String>()));
+                done!("eval-error");
+            }
         }
     };
     let canon0 = canon_value(hv.get_variant());
@@ -347,6 +376,66 @@ fn one_case(input: &str) -> String {
             format!("the object graph below the received `{}` value (route {}) is not isomorphic to the one sent: sent{} received{}", fam, route, src_graph.chars().take(160).collect::<String>(), dst_graph.chars().take(160).collect::<String>())
         ]));
     }
+    // ---- aliasing oracle: a cell that had to be copied is independent of the original; a cell
+    // the receiver may share (it lives in the receiver's heap or an ancestor) is the same cell ----
+    let mut read_copy: Option<FunctionRef<fn(Any) -> Any>> = None;
+    let mut cell_before_post: Option<String> = None;
+    // (a record moved into an unrelated VM cannot be accessed by field name there — its field names
+    // are the source VM's interned strings; `x.xs` panics with "Field `xs` does not exist" — so the
+    // accessors that use field names are not run across VMs)
+    let cell0 = sh.cell0.clone().filter(|(acc, _)| dvm_tag == 0 || !acc.contains('.'));
+    if let Some((acc, cpath)) = &cell0 {
+        let cell_owner: Option<Path> = {
+            let mut cur = Some(vroot);
+            for e in cpath {
+                cur = cur.and_then(|c| s1.objs.get(&c)).and_then(|o| o.edges.get(*e).cloned());
+            }
+            cur.and_then(|c| s1.objs.get(&c)).and_then(|o| o.owner.clone())
+        };
+        let lib = "let st = import! std.st.reference.prim\nlet array = import! std.array.prim\n";
+        let store_src = |n: i64| format!("{}\\x -> let u = st.(<-) ({}) [{}] in st.load ({})", lib, acc, n, acc);
+        let read_src = format!("{}\\x -> st.load ({})", lib, acc);
+        fn mk<'a>(t: &'a RootedThread, name: &str, src: &str) -> Option<FunctionRef<'a, fn(Any) -> Any>> {
+            t.run_expr::<FunctionRef<fn(Any) -> Any>>(name, src).ok().map(|x| x.0)
+        }
+        if let (Some(ow), Some(mut st_dst), Some(mut rd_src), Some(mut st_src), Some(mut rd_dst)) = (
+            cell_owner,
+            mk(&dthread, "al1", &store_src(777)),
+            mk(&sthread, "al2", &read_src),
+            mk(&sthread, "al3", &store_src(888)),
+            mk(&dthread, "al4", &read_src),
+        ) {
+            // the copy lives in the heap the value was cloned into: the destination thread's, or the
+            // channel owner's (`model_dst`)
+            let may_share = dvm_tag == 0 && is_prefix(&ow, &model_dst);
+            let orig0 = rd_src.call(hv.clone()).ok().map(|v| canon_value(v.get_variant()));
+            let _ = st_dst.call(w.clone());
+            let orig1 = rd_src.call(hv.clone()).ok().map(|v| canon_value(v.get_variant()));
+            let aliased1 = orig0 != orig1;
+            let _ = st_src.call(hv.clone());
+            let copy2 = rd_dst.call(w.clone()).ok().map(|v| canon_value(v.get_variant()));
+            let aliased2 = copy2.as_deref() == Some("(arr (int 888))");
+            res.insert("aliasing".into(), json!({"may_share": may_share, "store_via_copy_seen_by_original": aliased1, "store_via_original_seen_by_copy": aliased2}));
+            if !may_share && (aliased1 || aliased2) {
+                let rel = relation(&tag_path(Some(&dpath), dvm_tag), &ow);
+                oracle.push(json!([
+                    format!("cell-aliased-across-heaps:{}:{}", fam, rel),
+                    format!("after moving a `{}` value from thread {:?} to thread {:?} (route {}) a reference cell of the sender (heap {:?}) and its copy are ONE cell: a store through the copy is {}seen by the original, a store through the original is {}seen by the copy", fam, spath, tag_path(Some(&dpath), dvm_tag), route, ow, if aliased1 { "" } else { "not " }, if aliased2 { "" } else { "not " })
+                ]));
+                poisoned = true;
+            }
+            if may_share && !(aliased1 && aliased2) {
+                oracle.push(json!([
+                    format!("shared-cell-copied:{}", fam),
+                    format!("a reference cell that lives in heap {:?}, which the receiving thread {:?} may share, was replaced by a copy when the `{}` value holding it was moved (route {}): stores are no longer seen on the other side", ow, dpath, fam, route)
+                ]));
+            }
+            cell_before_post = rd_dst.call(w.clone()).ok().map(|v| canon_value(v.get_variant()));
+            read_copy = Some(rd_dst);
+        }
+    }
+    // the stores above replaced cell contents: what must survive is what the copy holds NOW
+    let d1 = if cell0.is_some() && !poisoned { snapshot(&dvm.root) } else { d1 };
     if poisoned {
         // memory safety cannot be relied on from here: the later steps are not run
         done!("flagged");
@@ -392,6 +481,12 @@ fn one_case(input: &str) -> String {
     if !d2.bad_edges().is_empty() {
         oracle.push(json!([format!("cross-heap-pointer-later:{}", fam), "a pointer into a non-ancestor heap exists after the collections"]));
         done!("flagged");
+    }
+    if let (Some(rd), Some(before)) = (read_copy.as_mut(), cell_before_post.as_ref()) {
+        let now = rd.call(w.clone()).ok().map(|v| canon_value(v.get_variant()));
+        if now.as_ref() != Some(before) {
+            oracle.push(json!([format!("cell-content-changed-after-sender-collected:{}:{}", fam, route), format!("a cell of the received value held {} and now reads {:?}", before, now)]));
+        }
     }
     let canon2 = canon_value(w.get_variant());
     if canon2 != canon0 {
@@ -481,12 +576,38 @@ fn main() {
         return;
     }
     let mut rng = Rng::new(args.seed, 0x13);
-    let n = if args.thorough() { 2500 } else { 120 };
+    let n = if args.thorough() { 2500 } else { 80 };
     let routes = ["reroot", "push", "channel", "unrelated"];
     let mut inputs = vec![];
     // corpus first: the known shapes
     for (fam, route, s, d) in [("string-array", "reroot", 1, 0), ("string-array", "channel", 3, 1), ("shared-ref-cell", "reroot", 1, 2), ("closure", "unrelated", 0, 0), ("shared", "reroot", 3, 2)] {
         inputs.push(json!({"seed": 7, "family": fam, "route": route, "src": s, "dst": d}).to_string());
+    }
+    // arrays with userdata elements: every route, incl. sibling (1,2), cousin (3,4), uncle/nephew
+    // (1,4) (4,1), parent/child (0,3) (3,0) (1,3) (3,1) and the unrelated VM
+    {
+        let ud = ["ref-array", "ref-array-shared", "lazy-array", "lazy-array-forced", "ref-array-nested", "rec-of-ref-array", "closure-of-ref-array", "parent-cell-array"];
+        let pairs = [(1u64, 2u64), (3, 4), (1, 4), (4, 1), (0, 3), (3, 0), (1, 3), (3, 1), (2, 2)];
+        let mut k = 0usize;
+        for (fi, fam) in ud.iter().enumerate() {
+            for (ri, route) in routes.iter().enumerate() {
+                let reps = if args.thorough() { pairs.len() } else { 2 };
+                for j in 0..reps {
+                    let (sd, dd) = pairs[(fi + ri * 2 + j * 4 + k) % pairs.len()];
+                    k += 1;
+                    inputs.push(json!({"seed": args.seed * 7_000_000 + k as u64, "family": fam, "route": route, "src": sd, "dst": dd}).to_string());
+                }
+            }
+        }
+        // the pairs that matter most, always
+        for fam in ["ref-array", "rec-of-ref-array", "parent-cell-array"] {
+            for (sd, dd) in [(1u64, 2u64), (3, 4), (1, 4), (3, 1)] {
+                for route in ["reroot", "push"] {
+                    k += 1;
+                    inputs.push(json!({"seed": args.seed * 7_000_000 + k as u64, "family": fam, "route": route, "src": sd, "dst": dd}).to_string());
+                }
+            }
+        }
     }
     for i in 0..n {
         let fam = shapes::FAMILIES[i % shapes::FAMILIES.len()];
@@ -536,7 +657,7 @@ fn main() {
     let mut sp_inputs = vec![];
     let n_sp = if args.thorough() { 200 } else { 18 };
     for i in 0..n_sp {
-        let expr_only: Vec<&'static str> = shapes::FAMILIES.iter().cloned().filter(|f| !["variant", "deep-list", "cyclic", "mutual-closures", "closure", "partial-app", "ref-cell", "shared-ref-cell"].contains(f)).collect();
+        let expr_only: Vec<&'static str> = shapes::FAMILIES.iter().cloned().filter(|f| !["variant", "deep-list", "cyclic", "mutual-closures", "closure", "partial-app", "ref-cell", "shared-ref-cell", "ref-array", "ref-array-shared", "lazy-array", "lazy-array-forced", "ref-array-nested", "rec-of-ref-array", "closure-of-ref-array", "parent-cell-array"].contains(f)).collect();
         let fam = expr_only[i % expr_only.len()];
         let (direct, prog) = gluon_program(fam, &mut rng);
         sp_inputs.push(json!({"family": fam, "direct": direct, "prog": prog}).to_string());
